@@ -4,8 +4,7 @@ import DirectVerif.Model.Dataset
 # Bridge C12 — what the translator read off `/repo` equals the hand-written model
 
 Arithmetic kernels: closed by `simp only [defs]; omega`.  Structural tables: every entry must be
-`true` (`decide`); the seed-plumbing table of `FakeMRIData` must be all-true, the one of
-`SheppLoganDataset` must equal the table the model mirrors (`sheppTableCurrent`).
+`true` (`decide`); the seed-plumbing tables of `FakeMRIData` and `SheppLoganDataset` must be all-true.
 -/
 namespace DirectVerif.Bridge.C12
 open DirectVerif DirectVerif.Dataset DirectVerif.Gen.C12
@@ -37,7 +36,8 @@ theorem concat_neg_reject_eq (idx len : Int) : concat_neg_reject idx len = conca
 theorem concat_neg_idx_eq (idx len : Int) : concat_neg_idx idx len = concatNegIdx idx len := by
   simp only [concat_neg_idx, concatNegIdx]
 
-theorem concat_sample_idx_eq (idx d prev : Int) : concat_sample_idx idx d prev = concatSampleIdx idx d prev := by
+theorem concat_sample_idx_eq (idx d prev curc : Int) :
+    concat_sample_idx idx d prev curc = concatSampleIdx idx d prev := by
   simp only [concat_sample_idx, concatSampleIdx, beq_iff_eq]
 
 /-- `out_sequence.append(length + total); total += length` is the step of `cumsumFrom` -/
@@ -60,12 +60,15 @@ theorem parse_step_eq {φ : Type} (filt : Option PySliceT) (st : Parsed φ) (f :
 theorem parse_table_ok : parseTable.all (·.2) = true := by decide
 theorem window_table_ok : windowTable.all (·.2) = true := by decide
 theorem concat_table_ok : concatTable.all (·.2) = true := by decide
+/-- per-sample seeds come from a private stream seeded with the dataset seed (`temp_seed`) -/
+theorem init_seed_table_ok : initSeedTable.all (·.2) = true := by decide
 
 /-- the seed reaches `make_blobs(random_state=…)` and `simulate_sensitivity_maps(seed=…)`, which seeds
 for every seed that is not `None` -/
 theorem fake_table_ok : fakeTable.allTrue = true := by decide
 
-/-- the model's `sheppTableCurrent` is the plumbing of the current `SheppLoganDataset.__getitem__` -/
-theorem shepp_table_eq : sheppTable = sheppTableCurrent := by decide
+/-- `SheppLoganDataset.__getitem__` hands the slice's seed to `simulate_sensitivity_maps` and draws the
+noise of all-zero slices from a stream seeded with it -/
+theorem shepp_table_ok : sheppTable.allTrue = true := by decide
 
 end DirectVerif.Bridge.C12
